@@ -30,10 +30,16 @@ def exc_class(e: BaseException) -> str:
     return "internal:" + type(e).__name__
 
 
-def try_compile(program: dict, **kw):
-    """-> ('ok', CompilationResult) | (error class, exception)"""
+def try_compile(program: dict, form: str = "schema", **kw):
+    """-> ('ok', CompilationResult) | (error class, exception).  `form` selects which of the input shapes the public API
+    accepts is handed over: the whole document (`schema`), its `program` (`program`), or a plain dict dump of the document
+    validated again (`dict`) — all three are verified and must behave alike."""
     try:
         q = schema(program)
+        if form == "program":
+            q = q.program
+        elif form == "dict":
+            q = SchemaV1.model_validate(q.model_dump())
     except Exception as e:  # schema-invalid input: not bartiq's business
         return "schema", e
     try:
